@@ -71,6 +71,7 @@ class BatonScheduler:
         self.current = None
         self.by_ident = {}
         self.main_sem = threading.Semaphore(0)
+        self.begun = set()      # threads that have started running and are not finished
         self.seam_trace = []
         self.verdict = None
         self.step_cap = step_cap
@@ -100,6 +101,8 @@ class BatonScheduler:
                 self.by_ident[threading.get_ident()] = tid
                 self.sems[tid].acquire()
                 try:
+                    # the simulated process sees this thread from now on (threads start late: see World.install)
+                    self.begun.add(tid)
                     if self.verdict is None:
                         fn()
                 except (SimDeadlock, SimHang) as e:
@@ -108,6 +111,7 @@ class BatonScheduler:
                 except BaseException as e:       # noqa
                     self.errors[tid] = e
                 finally:
+                    self.begun.discard(tid)
                     self.state[tid] = 'done'
                     self._handoff_after_exit(tid)
             return target
